@@ -188,15 +188,16 @@ func (r *Record) LessByName(other *Record) bool {
 // LessByCoordinate returns true if the receiver sorts by coordinate before other
 // according to the SAM specification.
 func (r *Record) LessByCoordinate(other *Record) bool {
-	rRefName := r.Ref.Name()
-	oRefName := other.Ref.Name()
+	// The major sort key is the reference, ordered as the
+	// references are listed in the header, not by name.
 	switch {
-	case oRefName == "*":
+	case other.Ref == nil:
 		return true
-	case rRefName == "*":
+	case r.Ref == nil:
 		return false
 	}
-	return (rRefName < oRefName) || (rRefName == oRefName && r.Pos < other.Pos)
+	rID, oID := r.Ref.ID(), other.Ref.ID()
+	return (rID < oID) || (rID == oID && r.Pos < other.Pos)
 }
 
 // String returns a string representation of the Record.
